@@ -409,6 +409,8 @@ static void pct_init(void) {
     for (int i = 0; i < pct_n; i++) pct_change[i] = 1 + sim_choose(CH_SCHED, 3000);
 }
 
+char sim_last_runnable[512]; void *sim_last_runnable_task[16]; SimProc *sim_last_runnable_proc[16]; int sim_last_runnable_n;
+static void *cands_task(SimTask *t) { return t; }
 int sim_run(void) {
     getcontext(&sched_ctx);
     pct_init();
@@ -434,7 +436,13 @@ int sim_run(void) {
             }
             rc = 0; break;
         }
-        if (++S.steps > K.max_steps) { rc = 1; break; }
+        if (++S.steps > K.max_steps) {
+            /* who could still run: tells a livelock (who spins on what) from a workload that is merely too long */
+            sim_last_runnable[0] = 0; sim_last_runnable_n = 0;
+            for (int i = 0; i < n && i < 16; i++) { sim_last_runnable_task[i] = cands_task(cand[i]); sim_last_runnable_proc[i] = cand[i]->p; sim_last_runnable_n++; }
+            for (int i = 0, w = 0; i < n && w < 400; i++) w += snprintf(sim_last_runnable + w, sizeof sim_last_runnable - (size_t)w, "%s(pid %d task %d, last yield '%s') ", cand[i]->p->role, cand[i]->p->pid, cand[i]->id, cand[i]->ykind ? cand[i]->ykind : "?");
+            rc = 1; break;
+        }
         if (K.max_blocks && S.blocks > K.max_blocks) { rc = 2; break; }
         now_us += 1;
         SimTask *t;
@@ -1014,11 +1022,15 @@ static int k_kill(pid_t pid, int sig) {
 
 /* ---------------- pthreads as tasks ---------------- */
 typedef struct SimMutex { void *addr; SimProc *p; SimTask *owner; int waiters; } SimMutex;
-static SimMutex mutexes[64]; static int nmutex;
+#define MAXMUTEX 1024
+static SimMutex mutexes[MAXMUTEX]; static int nmutex;
 static SimMutex *mutex_get(void *addr) {
     SimProc *id = img_identity(cur->p);
     for (int i = 0; i < nmutex; i++) if (mutexes[i].addr == addr && mutexes[i].p == id) return &mutexes[i];
-    if (nmutex == 64) abort();
+    if (nmutex == MAXMUTEX) {   /* mutexes in short-lived heap objects: take over the slot of one that nobody holds (slots never move: waiters point at them) */
+        for (int i = 0; i < nmutex; i++) if (!mutexes[i].owner) { SimMutex *m = &mutexes[i]; m->addr = addr; m->p = id; m->waiters = 0; return m; }
+        abort();
+    }
     SimMutex *m = &mutexes[nmutex++]; m->addr = addr; m->p = id; m->owner = NULL; m->waiters = 0;
     return m;
 }
@@ -1362,6 +1374,81 @@ int __wrap_pthread_mutex_trylock(pthread_mutex_t *m) {
     sm->owner = cur; if (sim_proc_race(cur->p)) race_acquire(cur->id, m);
     return 0;
 }
+
+/* ---- further pthread objects a refactoring may reach for: once, condition variables, semaphores, spin locks ----
+ * Their state is kept by the kernel, keyed by (address, pid): the objects themselves live in image statics, which are only
+ * in place while their own process is loaded (the scheduler evaluates wake-up conditions with whatever process ran last),
+ * and pids are never reused, so a new process never inherits the state of a dead one.  No real pthread function ever looks
+ * at these objects: every operation on them is wrapped. */
+typedef struct SimSync { void *addr; int pid; int kind; long val; uint64_t gen; } SimSync;   /* kind 1 once (val 0 new, 1 running, 2 done), 2 cond (gen = signals so far), 3 sem (val = count) */
+#define MAXSYNC 2048
+static SimSync syncs[MAXSYNC]; static int nsyncs, sync_next;
+static SimSync *sync_obj(void *addr, int kind) {
+    int pid = img_identity(cur->p)->pid;
+    for (int i = 0; i < nsyncs; i++) if (syncs[i].addr == addr && syncs[i].pid == pid && syncs[i].kind == kind) return &syncs[i];
+    SimSync *o;
+    if (nsyncs < MAXSYNC) o = &syncs[nsyncs++];
+    else {   /* recycle the entry of a process that no longer exists */
+        o = NULL;
+        for (int k = 0; k < MAXSYNC && !o; k++) { SimSync *c = &syncs[(sync_next + k) % MAXSYNC]; SimProc *q = sim_find_pid(c->pid); if (!q || !q->alive) { o = c; sync_next = (sync_next + k + 1) % MAXSYNC; } }
+        if (!o) abort();
+    }
+    memset(o, 0, sizeof *o); o->addr = addr; o->pid = pid; o->kind = kind; return o;
+}
+static bool rdy_once(SimTask *t) { return ((SimSync *)t->wait_obj)->val == 2; }
+int __real_pthread_once(pthread_once_t *, void (*)(void));
+int __wrap_pthread_once(pthread_once_t *oc, void (*fn)(void)) {
+    if (!cur) return __real_pthread_once(oc, fn);
+    SimSync *o = sync_obj(oc, 1);
+    sim_yield("o");
+    if (o->val == 0) { o->val = 1; fn(); o->val = 2; if (sim_proc_race(cur->p)) race_release(cur->id, oc); return 0; }
+    if (o->val == 1) block_on(rdy_once, o, "O");
+    if (sim_proc_race(cur->p)) race_acquire(cur->id, oc);
+    return 0;
+}
+static bool rdy_cond(SimTask *t) { return ((SimSync *)t->wait_obj)->gen > (uint64_t)(uintptr_t)t->wait_obj2; }
+static int cond_wait_common(pthread_cond_t *c, pthread_mutex_t *m, uint64_t deadline_us) {
+    SimSync *o = sync_obj(c, 2);
+    uint64_t seen = o->gen;
+    k_mutex_unlock(m);
+    cur->wait_obj2 = (void *)(uintptr_t)seen;
+    if (deadline_us) { cur->timed = true; cur->wake_at = deadline_us; }
+    block_on(rdy_cond, o, "C");
+    cur->timed = false;
+    bool signalled = o->gen > seen;
+    k_mutex_lock(m);
+    return signalled ? 0 : ETIMEDOUT;
+}
+int __wrap_pthread_cond_init(pthread_cond_t *c, const pthread_condattr_t *a) { (void)a; if (cur) sync_obj(c, 2)->gen = 0; return 0; }
+int __wrap_pthread_cond_destroy(pthread_cond_t *c) { (void)c; return 0; }
+int __wrap_pthread_cond_wait(pthread_cond_t *c, pthread_mutex_t *m) { if (!cur) return 0; return cond_wait_common(c, m, 0); }
+int __wrap_pthread_cond_timedwait(pthread_cond_t *c, pthread_mutex_t *m, const struct timespec *abst) {
+    if (!cur) return 0;
+    uint64_t abs_us = (uint64_t)abst->tv_sec * 1000000 + (uint64_t)abst->tv_nsec / 1000, base = epoch_base * 1000000;
+    uint64_t dl = abs_us > base ? abs_us - base : 0; if (dl <= now_us) dl = now_us + 1;
+    return cond_wait_common(c, m, dl);
+}
+/* (a signal wakes every waiter whose wait started before it: spurious wake-ups are allowed by POSIX, lost ones are not) */
+int __wrap_pthread_cond_signal(pthread_cond_t *c) { if (!cur) return 0; sync_obj(c, 2)->gen++; sim_yield("c"); return 0; }
+int __wrap_pthread_cond_broadcast(pthread_cond_t *c) { if (!cur) return 0; sync_obj(c, 2)->gen++; sim_yield("c"); return 0; }
+#include <semaphore.h>
+static bool rdy_sem(SimTask *t) { return ((SimSync *)t->wait_obj)->val > 0; }
+int __wrap_sem_init(sem_t *sm, int pshared, unsigned v) { (void)pshared; if (cur) sync_obj(sm, 3)->val = (long)v; return 0; }
+int __wrap_sem_destroy(sem_t *sm) { (void)sm; return 0; }
+int __wrap_sem_post(sem_t *sm) { if (!cur) return 0; if (sim_proc_race(cur->p)) race_release(cur->id, sm); sync_obj(sm, 3)->val++; sim_yield("s"); return 0; }
+int __wrap_sem_wait(sem_t *sm) {
+    if (!cur) return 0;
+    SimSync *o = sync_obj(sm, 3); sim_yield("s");
+    while (o->val <= 0) block_on(rdy_sem, o, "S");
+    o->val--; if (sim_proc_race(cur->p)) race_acquire(cur->id, sm);
+    return 0;
+}
+int __wrap_sem_trywait(sem_t *sm) { if (!cur) return 0; SimSync *o = sync_obj(sm, 3); sim_yield("s"); if (o->val <= 0) { errno = EAGAIN; return -1; } o->val--; if (sim_proc_race(cur->p)) race_acquire(cur->id, sm); return 0; }
+int __wrap_pthread_spin_lock(pthread_spinlock_t *l) { if (!cur) return 0; return k_mutex_lock((void *)l); }
+int __wrap_pthread_spin_trylock(pthread_spinlock_t *l) { if (!cur) return 0; return __wrap_pthread_mutex_trylock((pthread_mutex_t *)(void *)l); }
+int __wrap_pthread_spin_unlock(pthread_spinlock_t *l) { if (!cur) return 0; return k_mutex_unlock((void *)l); }
+pthread_t __real_pthread_self(void);
+pthread_t __wrap_pthread_self(void) { if (!cur) return __real_pthread_self(); return (pthread_t)(uintptr_t)cur; }
 int __real_sigprocmask(int, const sigset_t *, sigset_t *);
 int __wrap_sigprocmask(int how, const sigset_t *s, sigset_t *o) { if (!cur) return __real_sigprocmask(how, s, o); if (o) sigemptyset(o); return 0; }
 int __wrap_pthread_sigmask(int how, const sigset_t *s, sigset_t *o) { (void)how; (void)s; if (o) sigemptyset(o); return 0; }
